@@ -29,6 +29,9 @@ BasisOK(e) ==
              /\ FClose(got, want.v, want.s)
              /\ (m >= k => got = FZ \/ FEq(got, FZ))                           \* zero for m >= k
         /\ e.m0_via_deriv[i + 1][q] = e.vals[i + 1][1][q]
+        \* the vector entry point, fed the points in reverse order, returns the single-point values in that order
+        /\ ("vec_rev" \in DOMAIN e => \A m \in 0..1 : /\ Len(e.vec_rev[i + 1][m + 1]) = Len(e.xs)
+                                                       /\ e.vec_rev[i + 1][m + 1][Len(e.xs) + 1 - q] = e.vals[i + 1][m + 1][q])
         /\ (InDomain(t, x) => FLe(FZ, e.vals[i + 1][1][q]))                      \* non-negative
         /\ ((FLt(x, Kn(t, i)) \/ FLt(Kn(t, i + k), x)) => FEq(e.vals[i + 1][1][q], FZ))   \* vanishes outside its k spans
   /\ \A q \in 1..Len(e.xs) : InDomain(t, e.xs[q]) =>
